@@ -782,7 +782,8 @@ theorem split_assumption_fresh_script :
     Gen.InternalParams.planCallersOutside = [] ∧
     Gen.InternalParams.transpileBody = ["oScript, err := logql_parser.Parse(script)", "if err != nil { return nil, err }",
       "return Plan(oScript)"] ∧
-    Gen.InternalParams.parseBody = ["parser, err := participle.Build[LogQLScript](participle.Lexer(LogQLLexerDefinition), participle.UseLookahead(2))",
+    Gen.InternalParams.parseBody = ["if len(str) > MaxQueryLength { return nil, fmt.Errorf(\"query too long: %d bytes (maximum %d)\", len(str), MaxQueryLength) }",
+      "parser, err := participle.Build[LogQLScript](participle.Lexer(LogQLLexerDefinition), participle.UseLookahead(2))",
       "if err != nil { return nil, err }", "res, err := parser.ParseString(\"\", str+\" \")", "return res, err"] ∧
     Gen.plannerGlobals.filter (fun g => g.startsWith "reader/logql/logql_parser.") =
       ["reader/logql/logql_parser.LogQLLexerDefinition", "reader/logql/logql_parser.LogQLLexerRulesV2"] := by
